@@ -286,22 +286,28 @@ func genReq(t *rapid.T, c Case) Req {
 	kinds := []string{"none", "none", "none", "none", "none", "none", "valid", "garbage"}
 	if upload {
 		kinds = []string{"valid", "valid", "valid", "valid", "other", "other", "garbage", "garbage", "wrongmode", "empty", "none",
-			"truncated", "trailing", "flip"}
+			"truncated", "trailing", "flip", "other-truncated", "other-trailing", "other-trailing", "other-flip"}
 	}
 	r.Body = rapid.SampledFrom(kinds).Draw(t, "body")
-	switch r.Body {
-	case "other":
+	if strings.HasPrefix(r.Body, "other") {
 		if c.Server == "chunk" {
 			r.BodyObj = rapid.SampledFrom([]string{"P", "R", "Q", "N", "E"}).Draw(t, "bodyobj")
 			if r.BodyObj == r.Target {
-				r.Body = "valid"
+				r.Body = strings.TrimPrefix(strings.TrimPrefix(r.Body, "other"), "-")
+				if r.Body == "" {
+					r.Body = "valid"
+				}
 				r.BodyObj = ""
 			}
+		} else if r.Body != "other" {
+			r.Body = strings.TrimPrefix(r.Body, "other-")
 		}
-	case "garbage", "trailing":
+	}
+	switch r.Body {
+	case "garbage", "trailing", "other-trailing":
 		r.BodySeed = rapid.Uint64().Draw(t, "bodyseed")
 		r.BodyLen = rapid.SampledFrom([]int{1, 7, 32, 100, 1000, 70000}).Draw(t, "bodylen")
-	case "flip":
+	case "flip", "other-flip":
 		r.BodySeed = rapid.Uint64().Draw(t, "bodyseed")
 	}
 	if c.Server == "index" && (r.Body == "valid" || r.Body == "truncated" || r.Body == "trailing" || r.Body == "flip") {
